@@ -269,3 +269,35 @@ def _atoms(t):
             for u in t[1:]:
                 out |= _atoms(u)
     return out
+
+
+def buckling_backtransform_pole(ctx, rule='back-transformation-finite-at-its-pole'):
+    """Buckling mode iterates with inv(K - sigma K_G) K, whose eigenvalues are nu = lambda / (lambda - sigma); the pencil
+    K x = lambda K_G x has an INFINITE eigenvalue for every null vector of K_G, and there the operator is the identity: nu = 1 is
+    an exact eigenvalue that converges at once.  K_G is only required to be symmetric, so zero and rank-deficient K_G (named by
+    the quantifier of C13) are in the domain, and lambda = sigma nu / (nu - 1) divides by zero: `inf` (or 4.5e15 for nu = 1 + eps)
+    is returned with info() == Successful.  Every division by (nu - 1) in the buckling back-transformation must sit on the
+    nu != 1 side of a test; the Cayley sibling has the same pole but requires a positive-definite B, for which nu = 1 is reached by
+    rounding only."""
+    n = 0
+    seen = set()
+    for fn in ctx.F.concrete():
+        if not (fn.cls or '').startswith('Spectra::SymGEigsShiftSolver') or fn.name != 'sort_ritzpair' or not fn.cfg or 'GEigsMode::Buckling' not in fn.record or fn.record in seen:
+            continue
+        seen.add(fn.record)
+        for x in fn.walk():
+            if not (x['k'] in ('CXXOperatorCallExpr', 'BinaryOperator') and x.get('op') == '/'):
+                continue
+            t = sym(fn, x, inline=False)
+            den = t[2]
+            if not (isinstance(den, tuple) and den[0] == '-' and den[2] == ('lit', '1') and 'm_ritz_val' in show(den[1])):
+                continue
+            n += 1
+            guarded = any(i['k'] in ('IfStmt', 'ConditionalOperator') and 'm_ritz_val' in show(sym(fn, i['cond'] if i['k'] == 'IfStmt' else fn.nodes[i['c'][0]], inline=False)) and
+                          '1' in show(sym(fn, i['cond'] if i['k'] == 'IfStmt' else fn.nodes[i['c'][0]], inline=False)) for i in fn.ancestors(x)) or 'select(' in show(t)
+            ctx.check(guarded, rule, 'SymGEigsShiftSolver<Buckling>::sort_ritzpair', fn.qname,
+                      'the division by (nu - 1) is guarded' if guarded else
+                      '`%s` divides by (nu - 1) with no test: for a singular K_G (zero, rank deficient) nu = 1 is an exact eigenvalue of the operator and `inf` is returned as a converged '
+                      'eigenvalue with info() == Successful' % show(t)[:70])
+    if n < 1:
+        raise AnalysisBroken('no division by (nu - 1) found in the buckling back-transformation')
